@@ -1,0 +1,26 @@
+//go:build !verif
+
+package scheduler
+
+// Verification hooks (see verif_on.go). Without the "verif" build tag
+// every hook is a no-op that the compiler removes.
+
+const verifOn = false
+
+type (
+	verifSched  struct{}
+	verifJob    struct{}
+	verifConfig struct{}
+)
+
+func (verifSched) init(*Scheduler, Config)                                     {}
+func (verifSched) send(*ScheduledJob)                                          {}
+func (verifSched) sent(*ScheduledJob)                                          {}
+func (verifSched) closed()                                                     {}
+func (verifSched) ret(string, error)                                           {}
+func (verifSched) loop(string, *ScheduledJob, error, int, int, int, int, bool) {}
+func (verifSched) tick(State)                                                  {}
+func (verifSched) yield(string)                                                {}
+
+func verifWorkerID() int                            { return 0 }
+func verifWorker(int, string, *ScheduledJob, error) {}
